@@ -36,9 +36,10 @@ THEOREMS = {
                      "Abnf.C06.pairs_cover", "Abnf.C06.equiv_ok", "Abnf.C06.core_equiv_rfc", "Abnf.C06.core_engine_exact_wrt_rfc", "Abnf.sub_sound"],
     },
     "C08": {
-        "modules": ["Abnf.Theorems.C08"],
+        "modules": ["Abnf.Theorems.C08", "Abnf.DriverCache"],
         "theorems": ["Abnf.C08.request_transparent", "Abnf.C08.cache_transparent", "Abnf.C08.fresh_caches_sound",
-                     "Abnf.lparseC_sand", "Abnf.lparse_mono", "Abnf.lruOps_sound'", "Abnf.C08.cache_transparent_total"],
+                     "Abnf.lparseC_sand", "Abnf.lparse_mono", "Abnf.lruOps_sound'", "Abnf.C08.cache_transparent_total",
+                     "Abnf.hmOps_sound", "Abnf.cidsOkG_sound", "Abnf.driver_request_eq"],
     },
     "C11": {
         "modules": ["Abnf.Theorems.C11"],
